@@ -24,6 +24,7 @@ def cases(tier):
     for i in range(8):
         cs.append(dict(name=f"composition_{i}", fn="composition", args={}, prefix=[i], weight=2))
         cs.append(dict(name=f"conjunction_{i}", fn="conjunction", args={}, prefix=[i], weight=3))
+    cs.append(dict(name="conjunction_rows", fn="conjunction_rows", args={}, weight=1))
     for i in range(8):
         cs.append(dict(name=f"assoc_comm_{i}", fn="assoc", args={}, prefix=[i], weight=5))
     cs.append(dict(name="leaf_transforms", fn="leaves", args={}, weight=2))
@@ -156,6 +157,32 @@ def case_conjunction(sp):
             exp_t = _lca(exp_t, t)
         obs.append(Ob("result_has_declared_keys_and_most_specific_common_type", set(res.keys()) == conj.output_keys and (type(res) is exp_t), cex))
     return obs
+
+
+def case_conjunction_rows(sp):
+    """the dictionary a conjunction returns is a dictionary of its type like any other: two members that deliver Jacobians with a DIFFERENT number of rows
+    cannot be merged ('cannot be created with values whose shapes contradict their type') - ValueError, for every pair of disjoint non-empty outputs"""
+    keys = _keys()
+    req = SUBSETS[choice(8, "required")]
+    pairs = [(a, b) for a in SUBSETS for b in SUBSETS if a and b and not (a & b)]
+    oa, ob = pairs[choice(len(pairs), "outputs")]
+    ra = 1 + choice(3, "rows_first")
+    rb = 1 + choice(3, "rows_second")
+    class RowStub(Stub):
+        def __init__(self, keys, req, out, rows, tag):
+            Stub.__init__(self, keys, req, out, Jacobians, tag)
+            self.rows = rows
+        def _compute(self, inp):
+            return Jacobians({self.keys[i]: _value_for(self.keys[i], Jacobians, rows=self.rows) + self.tag for i in self.out})
+    conj = Conjunction([RowStub(keys, req, oa, ra, 1), RowStub(keys, req, ob, rb, 2)])
+    def cex(model=None):
+        return dict(kind="typed", which="conjunction_rows", req=sorted(req), outs=[sorted(oa), sorted(ob)], rows=[ra, rb])
+    try:
+        res = conj(_mk_input(keys, req))
+        ran = True
+    except ValueError:
+        ran = False
+    return [Ob("conjunction_of_jacobians_with_different_row_counts_is_rejected", ran == (ra == rb), cex)]
 
 
 def case_assoc(sp):
